@@ -89,7 +89,36 @@ def compositions(data):
         ("multiout", MultiOutputRegressor(Ridge())),
         ("calibrated", CalibratedClassifierCV(LogisticRegression(), cv=2)),
         ("ufunc-wrapper", Pipeline([("f", FunctionTransformer(np.sqrt, inverse_func=np.square)), ("c", LogisticRegression())])),
+        # parameters that are containers of containers: dicts with non-string keys inside lists, numpy scalars as values and keys
+        ("search-classweight", GridSearchCV(LogisticRegression(), {"class_weight": [{0: 1.0, 1: 2.0}, {0: 2.0, 1: 1.0}, None]}, cv=2)),
+        ("search-gridlist", GridSearchCV(DecisionTreeClassifier(), [{"max_depth": [1, 2]}, {"class_weight": [{0: 1, 1: 3}]}], cv=2)),
+        ("forest-multi-classweight", __import__("sklearn.ensemble", fromlist=["x"]).RandomForestClassifier(
+            n_estimators=2, random_state=0, class_weight=[{0: 1.0, 1: 2.0}, {0: 1.0, 1: 5.0}])),
+        ("np-scalar-params", Pipeline([("i", __import__("sklearn.impute", fromlist=["x"]).SimpleImputer(strategy="constant", fill_value=np.float32(0.5))),
+                                        ("c", LogisticRegression(C=np.float64(2.0), max_iter=np.int64(50),
+                                                                 class_weight={np.int64(0): np.float64(1.0), np.int64(1): 2.0}))])),
     ]
+
+
+def parameter_objects():
+    """unfitted estimators whose parameters hold every numpy scalar type, as value and as dict key"""
+    from sklearn.dummy import DummyClassifier
+    from sklearn.impute import SimpleImputer
+    from sklearn.linear_model import LogisticRegression
+    from sklearn.preprocessing import FunctionTransformer
+
+    out = [("imputer-npstr", SimpleImputer(strategy="constant", fill_value=np.str_("missing"))),
+           ("logreg-npstr-keys", LogisticRegression(class_weight={np.str_("a"): 1.0, np.str_("b"): 2.0})),
+           ("dummy-npstr-constant", DummyClassifier(strategy="constant", constant=np.str_("a"))),
+           ("ft-kwargs", FunctionTransformer(np.add, kw_args={"out": None, "scalars": [np.void(b"ab"), np.datetime64("2020-01-01"), np.timedelta64(3, "s")]}))]
+    for t in sorted(set(np.sctypeDict.values()), key=lambda t: t.__name__):
+        if issubclass(t, (np.void, np.object_, np.datetime64, np.timedelta64, np.bytes_, np.str_)):
+            continue
+        try:
+            out.append((f"ft-scalar-{t.__name__}", FunctionTransformer(np.add, kw_args={"x": t(1), "keys": {t(1): "as key"} if not issubclass(t, (np.complexfloating, np.bool_, np.longdouble)) else {}})))
+        except Exception:
+            pass
+    return out
 
 
 def check_estimator(name, est, data, fitted):
@@ -182,9 +211,18 @@ def run(ctx):
                     samples.append(dict(estimator=name, params=repr(e2)[:120], untrusted=unt))
         if len(ofails) > 5:
             break
+    for name, est in parameter_objects():
+        fails, unt = check_estimator(name, est, data, fitted=False)
+        stats["unfitted"] += 1
+        for f in fails:
+            ofails.append((f, dict(kind="estimator", name=name, fitted=False, params=repr(est.get_params())[:400])))
+        for u in unt or []:
+            untrusted_seen.setdefault(u, name)
     for name, est in compositions(data):
         try:
-            if name == "multiout":
+            if name == "forest-multi-classweight":
+                est.fit(data["X"], np.stack([data["y"], 1 - data["y"]], axis=1))
+            elif name == "multiout":
                 with warnings.catch_warnings():
                     warnings.simplefilter("ignore")
                     est.fit(data["X"], data["y_multi"].astype(float))
